@@ -45,15 +45,32 @@ Matches(pr, kind, fno) ==
   \/ kind = "dat"  /\ pr.p = "sdat" /\ pr.f = fno
   \/ kind = "meta" /\ pr.p = "smeta"
 
-(* table t is about to perform the observed sync: the tables that were running have finished *)
-(* their first part (without any unobserved sync), t has advanced to just before the sync    *)
-Advance(t) ==
-  LET u == UntilSync(tab[t], pend[t].p1) IN
+(* real file lengths and metadata content = the model's (index in bytes: 6 per entry) *)
+DatLensT(ts) == {<<x, FLen(ts.dat[x].vol)>> : x \in Files(ts)}
+SameLensT(lens, t, ts) ==
+  /\ lens[t].idx = 6 * Len(ts.idx.vol)
+  /\ lens[t].meta = << Hidden(ts), 6 * Fo(ts) >>        \* the metadata file content: [virtualTail, flushOffset]
+  /\ {<<lens[t].dat[i][1], lens[t].dat[i][2]>> : i \in 1..Len(lens[t].dat)} = DatLensT(ts)
+SameLens(lens, tb) == \A t \in Tables : SameLensT(lens, t, tb[t])
+
+(* The tables of one call are worked on in map order, which the trace shows only through the fsyncs.   *)
+(* A table whose part of the call performs no fsync at all (TruncateTail within one data file: only   *)
+(* the unsynced metadata rewrite) may therefore have run already, unobserved, when another table's    *)
+(* first fsync is seen: it has iff the real files (lengths, metadata content) recorded with the       *)
+(* presync event are those after its program and not those before.                                    *)
+RanSilently(x, lens) ==
+  /\ pend[x].st = "new" /\ pend[x].p1 # <<>> /\ NoSyncIn(pend[x].p1)
+  /\ SameLensT(lens, x, Run(tab[x], pend[x].p1)) /\ ~SameLensT(lens, x, tab[x])
+
+(* table t is about to perform the observed sync: the tables that were running have finished their   *)
+(* first part (without any unobserved sync), t has advanced to just before the sync                  *)
+Advance(t, lens) ==
+  \E u \in {UntilSync(tab[t], pend[t].p1)} :
   /\ \A x \in Tables \ {t} : pend[x].st = "run" => NoSyncIn(pend[x].p1)
   /\ tab' = [x \in Tables |-> IF x = t THEN u.ts
-                              ELSE IF pend[x].st = "run" THEN Run(tab[x], pend[x].p1) ELSE tab[x]]
+                              ELSE IF pend[x].st = "run" \/ RanSilently(x, lens) THEN Run(tab[x], pend[x].p1) ELSE tab[x]]
   /\ pend' = [x \in Tables |-> IF x = t THEN [pend[t] EXCEPT !.p1 = u.rest, !.st = "run"]
-                               ELSE IF pend[x].st = "run" THEN [pend[x] EXCEPT !.p1 = <<>>, !.st = "done1"] ELSE pend[x]]
+                               ELSE IF pend[x].st = "run" \/ RanSilently(x, lens) THEN [pend[x] EXCEPT !.p1 = <<>>, !.st = "done1"] ELSE pend[x]]
   /\ u.rest # <<>>
 
 (* ---------------------------- observations ---------------------------- *)
@@ -67,13 +84,6 @@ SameResult(res, tb, head, tails) ==
   /\ \A t \in Tables : res.items[t] = Reads(tb, t, TailOfTable(t, tails), head)
   /\ \A t \in Tables : res.edge[t] = << IF TailOfTable(t, tails) > 0 THEN Read(tb[t], TailOfTable(t, tails) - 1) ELSE CORRUPT,
                                         Read(tb[t], head) >>
-(* real file lengths = model file lengths (index in bytes: 6 per entry) *)
-DatLens(tb, t) == LET fs == Files(tb[t]) IN {<<x, FLen(tb[t].dat[x].vol)>> : x \in fs}
-SameLens(lens, tb) ==
-  \A t \in Tables : /\ lens[t].idx = 6 * Len(tb[t].idx.vol)
-                    /\ lens[t].meta = << Hidden(tb[t]), 6 * Fo(tb[t]) >>        \* the metadata file content: [virtualTail, flushOffset]
-                    /\ {<<lens[t].dat[i][1], lens[t].dat[i][2]>> : i \in 1..Len(lens[t].dat)} = DatLens(tb, t)
-
 (* ---------------------------- crash images ---------------------------- *)
 CutFile(c, x) == LET i == CHOOSE i \in 1..Len(c.dat) : c.dat[i].fno = x IN c.dat[i]
 (* the recorded durable/current lengths are the model's *)
@@ -129,7 +139,7 @@ TCall == Step_(/\ Ev.op = "call" /\ \A t \in Tables : pend[t] = NoPend[t]
                /\ UNCHANGED <<tab, rep>>)
 
 TPreSync == Step_(/\ Ev.op = "presync"
-                  /\ Advance(Ev.t)
+                  /\ Advance(Ev.t, Ev.lens)
                   /\ Matches(Head(pend'[Ev.t].p1), Ev.kind, Ev.fno)
                   /\ UNCHANGED <<g, rep>>)
 TFsync == Step_(/\ Ev.op = "fsync"
